@@ -1,6 +1,7 @@
 (* C02 — assignments never lose, duplicate or reorder matched values. *)
 From TxV Require Import Core.Base Model.MultBase Gen.SrcMult Model.Mult Proofs.MultProofs Proofs.MultFlowProofs Proofs.MultRealProofs Proofs.MultSepProofs.
 From TxV Require Model.Build Model.PegSyntax Model.Peg Model.MultPeg Proofs.MultPegProofs Proofs.MultPegWitness.
+From TxV Require Model.MultBuild Proofs.MultBuildProofs Proofs.MultEndProofs Proofs.PegProofs Proofs.PegMemo.
 
 (* An attribute is a list exactly when one object can collect more than one value for it:
    `infer` is the multiplicity inference of the current source (visit_assignment's operator table followed by
@@ -185,3 +186,102 @@ Example C02_nonvacuous_link :
         = [Ev 0 OpPlain [SInt 0]; Ev 0 OpPlus [SInt 2; SInt 6]].
 Proof. exact MultPegWitness.wit_link. Qed.
 Print Assumptions C02_nonvacuous_link.
+
+(* ---------------------------------------------------------------- end to end on the full object builder (Model/Build.v)
+   Build.pnode is the model of parse_tree_to_objgraph validated against textX by C01/C06.  tvals ma kids = the values
+   process_node computes (vof) for the children of the assignment nodes of attribute ma among the children `kids` of the
+   rule's NonTerminal, in input order (`=`: the first child; `?=`: True; `*=`/`+=`: the non-separator children); for a
+   link attribute (`a=[Rule]`, `a+=[Rule]`) each value is the pending reference VRef name position class at that place.
+   expected_val ma vs = the list vs for a many-valued attribute, else the single value (or the initial value when vs = []).
+
+   Rule level, memoization off: for any parser-model table, oracle, input, state, fuel and enclosing object: if the rule
+   node has the structure of the body b, the interpreter returns the rule's NonTerminal, and the builder turns it into
+   an object, then EVERY attribute of the object holds exactly the matched values in input order, each once; the
+   attribute is many-valued iff maxcount >= 2; a single-valued attribute had at most one value matched.  (An object
+   is built, so no 'Multiple assignments' was raised at this level.)
+   Side conditions, all decidable and evaluated by the correspondence on the real tables/trees: asg_table_okb (every
+   __asgn node has a fitting PEG class), mult_agreesb (the dumped multiplicities are the inferred ones), Build.asg_placed
+   (assignment nodes occur only as direct children of common-rule nodes - the side condition C06 uses too - so the value
+   of every other tree does not depend on the enclosing object). *)
+Theorem C02_parsed_object_values :
+  forall g mm input grp auto use_grp attr_id orc,
+  MultBuild.asg_table_okb g mm = true ->
+  forall b nid fuel psq s kids s' cls attrs top cls' p e vals top',
+  MultPeg.den g mm attr_id true b nid = true -> grammar_ok b = true ->
+  Peg.parse g input orc false fuel nid psq s = Peg.Ok (Peg.RTree (Peg.NT nid kids)) s' ->
+  Build.info mm nid = Build.IRule Build.RCommon cls attrs ->
+  MultBuild.mult_agreesb attr_id b attrs = true ->
+  forallb (Build.asg_placed mm true) kids = true ->
+  Build.pnode g mm input grp auto use_grp (Peg.NT nid kids) top = Build.BOk (Build.VObj cls' p e vals, top') ->
+  forall ma, Build.find_attr (Build.a_name ma) attrs = Some ma ->
+    Build.get_val (Build.a_name ma) vals
+      = Some (MultBuild.expected_val auto ma (MultBuild.tvals g mm input grp auto use_grp ma kids))
+    /\ (MultBuild.is_many (Build.a_mult ma) = true <-> 2 <= maxcount (attr_id (Build.a_name ma)) b)
+    /\ (MultBuild.is_many (Build.a_mult ma) = false ->
+        length (MultBuild.tvals g mm input grp auto use_grp ma kids) <= 1).
+Proof. exact MultEndProofs.parsed_object_values. Qed.
+Print Assumptions C02_parsed_object_values.
+
+(* Input that the grammar accepts never fails with 'Multiple assignments': if building the rule's object ends in a
+   semantic error, that error was raised while one of the children was converted (by a nested object, to which this
+   theorem applies in turn) or by the object-name check - not by the multiple-assignment guard of this object. *)
+Theorem C02_parsed_object_no_mult_assign :
+  forall g mm input grp auto use_grp attr_id orc,
+  MultBuild.asg_table_okb g mm = true ->
+  forall b nid fuel psq s kids s' cls attrs top,
+  MultPeg.den g mm attr_id true b nid = true -> grammar_ok b = true ->
+  Peg.parse g input orc false fuel nid psq s = Peg.Ok (Peg.RTree (Peg.NT nid kids)) s' ->
+  Build.info mm nid = Build.IRule Build.RCommon cls attrs ->
+  MultBuild.mult_agreesb attr_id b attrs = true ->
+  forallb (Build.asg_placed mm true) kids = true ->
+  Build.pnode g mm input grp auto use_grp (Peg.NT nid kids) top = Build.BErr Build.ESem ->
+  (exists k c', In k kids /\ Build.pnode g mm input grp auto use_grp k (Some c') = Build.BErr Build.ESem /\
+     (MultBuildProofs.not_asg mm k = true \/
+      exists n' ks a o k0 c'', k = Peg.NT n' ks /\ Build.info mm n' = Build.IAsgn a o /\ In k0 ks /\
+                               Build.pnode g mm input grp auto use_grp k0 (Some c'') = Build.BErr Build.ESem))
+  \/ (exists c1, Build.each_loop (Build.pnode g mm input grp auto use_grp) kids
+                   (Some (Build.mkCur cls attrs (Build.tpos (Peg.NT nid kids)) (Build.tend (Peg.NT nid kids)) (Build.init_attrs auto attrs)))
+                 = Build.BOk (Some c1) /\ Build.name_ok (Build.c_vals c1) = false).
+Proof. exact MultEndProofs.parsed_object_no_mult_assign. Qed.
+Print Assumptions C02_parsed_object_no_mult_assign.
+
+(* Whole run, memoization off or on: Peg.run -> Build.build.  With memoization on, the parser model must be
+   context-constant and the un-memoized run must terminate with this fuel (C19's memo_safe). *)
+Theorem C02_run_object_values :
+  forall g mm input grp auto use_grp attr_id orc,
+  MultBuild.asg_table_okb g mm = true ->
+  forall memo b nid cfg fuel r cls attrs cls' p e vals,
+  (memo = true -> PegProofs.ctx_constant g = true /\ PegMemo.not_aborted (Peg.run g cfg orc false fuel input)) ->
+  MultPeg.den g mm attr_id true b nid = true -> grammar_ok b = true -> MultEndProofs.top_okb g nid = true ->
+  Build.info mm nid = Build.IRule Build.RCommon cls attrs -> MultBuild.mult_agreesb attr_id b attrs = true ->
+  Peg.run g cfg orc memo fuel input = Peg.Parsed r ->
+  (forall tp t rest, r = Peg.RTree (Peg.NT tp (t :: rest)) -> Build.asg_placed mm false t = true) ->
+  Build.build g mm input grp auto use_grp r = Build.BOk (Build.VObj cls' p e vals) ->
+  exists kids tp rest, r = Peg.RTree (Peg.NT tp (Peg.NT nid kids :: rest)) /\
+  forall ma, Build.find_attr (Build.a_name ma) attrs = Some ma ->
+    Build.get_val (Build.a_name ma) vals
+      = Some (MultBuild.expected_val auto ma (MultBuild.tvals g mm input grp auto use_grp ma kids))
+    /\ (MultBuild.is_many (Build.a_mult ma) = true <-> 2 <= maxcount (attr_id (Build.a_name ma)) b)
+    /\ (MultBuild.is_many (Build.a_mult ma) = false ->
+        length (MultBuild.tvals g mm input grp auto use_grp ma kids) <= 1).
+Proof. exact MultEndProofs.run_object_values. Qed.
+Print Assumptions C02_run_object_values.
+
+(* non-vacuity: all hypotheses hold on the dumped witness (`Model: (a=INT | b=INT) a+=INT[/,?/];`, input `1 2 , 3`,
+   memoization on) and the object holds a = [INT"1", INT"2", INT"3"], b = its default *)
+Example C02_nonvacuous_end_to_end :
+  PegProofs.ctx_constant MultPegWitness.wit_g = true
+  /\ MultBuild.asg_table_okb MultPegWitness.wit_g MultPegWitness.wit_mm = true
+  /\ MultEndProofs.top_okb MultPegWitness.wit_g MultPegWitness.wit_nid = true
+  /\ MultBuild.mult_agreesb MultPegWitness.wit_attr MultPegWitness.wit_body MultPegWitness.wit_attrs = true
+  /\ PegMemo.not_aborted (Peg.run MultPegWitness.wit_g MultPegWitness.wit_cfg (Peg.orc_of MultPegWitness.wit_tbl) false 50 MultPegWitness.wit_input)
+  /\ exists r p e vals,
+       Peg.run MultPegWitness.wit_g MultPegWitness.wit_cfg (Peg.orc_of MultPegWitness.wit_tbl) true 50 MultPegWitness.wit_input = Peg.Parsed r
+       /\ Build.asg_placed MultPegWitness.wit_mm false (MultPegWitness.first_tree r) = true
+       /\ Build.build MultPegWitness.wit_g MultPegWitness.wit_mm MultPegWitness.wit_input MultPegWitness.wit_grp true false r
+          = Build.BOk (Build.VObj [77;111;100;101;108]%N p e vals)
+       /\ Build.get_val [97]%N vals
+          = Some (Build.VList [Build.VTerm [73;78;84]%N [49]%N; Build.VTerm [73;78;84]%N [50]%N; Build.VTerm [73;78;84]%N [51]%N])
+       /\ Build.get_val [98]%N vals = Some (Build.VDefault [73;78;84]%N).
+Proof. exact MultPegWitness.wit_end. Qed.
+Print Assumptions C02_nonvacuous_end_to_end.
